@@ -16,7 +16,9 @@ import GeomV.C19.Proofs
 * `tie_totals` : the `for i := 0; i < len(nodes)-1; i++` loop (left-to-right sums, `append`) = the model's `collect`
   (right-to-left sums); the "missing edge" panic exactly when `collect` faults.
 * **`tie_ShortestRoute`** : the regenerated `ShortestRoute` = the model's `shortestRoute` (nearest nodes, A*, `To`, totals,
-  start/end distance), fault for fault; `tie_ShortestRoute_ok`, `tie_ShortestRoute_built`.
+  start/end distance), fault for fault; `tie_ShortestRoute_ok` (the returned route = the geometries passed to `AddLink` for the
+  model's links: `ERel` records `LineString = geoOf link`), `tie_ShortestRoute_fault`, `C19_regenerated` (composition with
+  `tie_build` and `C19_built_gonum`).
 -/
 set_option linter.unusedVariables false
 set_option linter.unusedSimpArgs false
@@ -25,6 +27,7 @@ namespace GeomV.C19.Ties
 open GeomV GeomV.C19 GeomV.C19.Go GeomV.C19.Gen
 
 variable {α : Type} [Field α] [LinearOrder α] [IsStrictOrderedRing α]
+variable {geoOf : Nat → List (Pt α)}
 
 /-- the adapter `Go.aStar` builds from the regenerated callbacks -/
 def genAdapter (C : Ctx α) (g : Network α) : Adapter α :=
@@ -55,7 +58,7 @@ theorem ordOf_mem (C : Ctx α) (g : Network α) : ∀ u l x, x ∈ ordOf C g u l
   · rename_i h; exact ⟨h.1 x, h.2 x⟩
   · rfl
 
-theorem nodeMap_get {g : Network α} {net : Net α} (hR : Rep g net) (id : Nat) :
+theorem nodeMap_get {g : Network α} {net : Net α} (hR : Rep geoOf g net) (id : Nat) :
     mapGetD g.nodeMap id none = net.nodes.find? (fun n => n.id == id) := by
   unfold mapGetD mapGet?
   rw [hR.nodeMap, lookup_nodeMap]
@@ -92,7 +95,7 @@ theorem find_id {net : Net α} {k : Nat} {n : MNode α} (h : net.nodes.find? (fu
 
 /-- **`From(u)` lists the model's neighbours**: under `Rep`, a visiting order that is a permutation of the entries, and
 link ends that are stored nodes (`WF.ends`, proved for every AddLink history by `build_wf`) -/
-theorem cand_mem (C : Ctx α) (g : Network α) (net : Net α) (hR : Rep g net) (u : Nat)
+theorem cand_mem (C : Ctx α) (g : Network α) (net : Net α) (hR : Rep geoOf g net) (u : Nat)
     (hperm : (C.mo.perm (mapGetD g.neighbors u [])).Perm (mapGetD g.neighbors u []))
     (hends : ∀ e ∈ net.edges, hasNode net e.a = true ∧ hasNode net e.b = true) (x : Nat) :
     x ∈ candOf C g u ↔ x ∈ neighborIds net u := by
@@ -152,7 +155,7 @@ theorem cand_mem (C : Ctx α) (g : Network α) (net : Net α) (hR : Rep g net) (
           simp [hmid] at this
         | some n => simp [find_id hf]
 
-theorem ordOf_cand (C : Ctx α) (g : Network α) (net : Net α) (hR : Rep g net) (u : Nat)
+theorem ordOf_cand (C : Ctx α) (g : Network α) (net : Net α) (hR : Rep geoOf g net) (u : Nat)
     (hperm : (C.mo.perm (mapGetD g.neighbors u [])).Perm (mapGetD g.neighbors u []))
     (hends : ∀ e ∈ net.edges, hasNode net e.a = true ∧ hasNode net e.b = true) :
     ordOf C g u (neighborIds net u) = candOf C g u := by
@@ -161,7 +164,7 @@ theorem ordOf_cand (C : Ctx α) (g : Network α) (net : Net α) (hR : Rep g net)
   exact ⟨fun x hx => (cand_mem C g net hR u hperm hends x).1 hx, fun x hx => (cand_mem C g net hR u hperm hends x).2 hx⟩
 
 /-- **the regenerated callbacks are the model's adapter** (with `implementsWeighted = true` and the Go state's own map order) -/
-theorem tie_adapter (C : Ctx α) (g : Network α) (net : Net α) (hR : Rep g net)
+theorem tie_adapter (C : Ctx α) (g : Network α) (net : Net α) (hR : Rep geoOf g net)
     (hperm : ∀ u, (C.mo.perm (mapGetD g.neighbors u [])).Perm (mapGetD g.neighbors u []))
     (hends : ∀ e ∈ net.edges, hasNode net e.a = true ∧ hasNode net e.b = true) :
     genAdapter C g = adapter C.geo net true (ordOf C g) := by
@@ -214,7 +217,7 @@ theorem idx_append {β : Type} (pre : List β) (x : β) (sfx : List β) :
 route = append(route, e.LineString); distance += e.length; time += e.time }` started at index `|pre|` with accumulators
 `(r, d, t)` adds exactly what the model's `collect` computes on the rest of the path (Go sums left to right, `collect`
 right to left), and panics exactly when `collect` faults -/
-theorem tie_totals (g : Network α) (net : Net α) (hR : Rep g net)
+theorem tie_totals (g : Network α) (net : Net α) (hR : Rep geoOf g net)
     (body : List (List (Pt α)) × α × α → Int → M (List (List (Pt α)) × α × α)) (nodes : List Nat)
     (hbody : ∀ r d t i, body (r, d, t) i = (do
       let u ← Go.idx nodes i
@@ -265,7 +268,7 @@ theorem tie_totals (g : Network α) (net : Net α) (hR : Rep g net)
           | some ge =>
             rw [hl] at hnb
             simp only at hnb
-            obtain ⟨hlen', _, htime, _, _⟩ := hnb
+            obtain ⟨hlen', _, htime, _, _, hgeo⟩ := hnb
             simp only [Go.deref, pure, Except.pure]
             have := ih (pre ++ [u]) (by rw [hn]; simp) (r ++ [ge.LineString]) (d + ge.length) (t + ge.time)
             simp only [List.length_append, List.length_singleton, Nat.cast_add, Nat.cast_one] at this
@@ -279,11 +282,11 @@ theorem tie_totals (g : Network α) (net : Net α) (hR : Rep g net)
 
 /-! ### `ShortestRoute` -/
 
-theorem len_nodeMap {g : Network α} {net : Net α} (hR : Rep g net) : (Go.len g.nodeMap).toNat = net.nodes.length := by
+theorem len_nodeMap {g : Network α} {net : Net α} (hR : Rep geoOf g net) : (Go.len g.nodeMap).toNat = net.nodes.length := by
   simp [Go.len, hR.nodeMap]
 
 /-- the loop of `ShortestRoute` from index 0 with empty accumulators -/
-theorem tie_totals0 (g : Network α) (net : Net α) (hR : Rep g net)
+theorem tie_totals0 (g : Network α) (net : Net α) (hR : Rep geoOf g net)
     (body : List (List (Pt α)) × α × α → Int → M (List (List (Pt α)) × α × α)) (nodes : List Nat)
     (hbody : ∀ r d t i, body (r, d, t) i = (do
       let u ← Go.idx nodes i
@@ -305,7 +308,7 @@ theorem tie_totals0 (g : Network α) (net : Net α) (hR : Rep g net)
   exact h
 
 /-- `path.AStar` on the regenerated callbacks = the transliterated loop on the model's adapter -/
-theorem tie_aStar (C : Ctx α) (g : Network α) (net : Net α) (hR : Rep g net)
+theorem tie_aStar (C : Ctx α) (g : Network α) (net : Net α) (hR : Rep geoOf g net)
     (hperm : ∀ u, (C.mo.perm (mapGetD g.neighbors u [])).Perm (mapGetD g.neighbors u []))
     (hends : ∀ e ∈ net.edges, hasNode net e.a = true ∧ hasNode net e.b = true) (fuel : Nat) (s t : MNode α) :
     Go.aStar C.Q (fun u => network_From C g u) (fun x y => network_Weight C g x y) (fun x y => network_costHeuristic C g x y)
@@ -326,7 +329,7 @@ Go map order that permutes the entries, and link ends that are stored nodes, the
 searches with their nil type assertions, start/end distance, `path.AStar` on the regenerated `From`/`Weight`/
 `costHeuristic`, `shortest.To`, the path → links loop with left-to-right totals) returns the model's distance, time,
 start and end distance, the link geometries of the model's node path, and faults exactly where the model does. -/
-theorem tie_ShortestRoute (C : Ctx α) (g : Network α) (net : Net α) (hR : Rep g net)
+theorem tie_ShortestRoute (C : Ctx α) (g : Network α) (net : Net α) (hR : Rep geoOf g net)
     (hperm : ∀ u, (C.mo.perm (mapGetD g.neighbors u [])).Perm (mapGetD g.neighbors u []))
     (hends : ∀ e ∈ net.edges, hasNode net e.a = true ∧ hasNode net e.b = true) (from_ to_ : Pt α) :
     network_ShortestRoute C g from_ to_ =
@@ -378,8 +381,9 @@ theorem tie_ShortestRoute (C : Ctx α) (g : Network α) (net : Net α) (hR : Rep
           | error e => rfl
           | ok res => obtain ⟨ls, d, tm⟩ := res; rfl
 
-theorem routeG_length (g : Network α) (net : Net α) (hR : Rep g net) :
-    ∀ (nodes : List Nat) (ls : List Nat) (d t : α), collect net nodes = .ok (ls, d, t) → (routeG g nodes).length = ls.length := by
+/-- the geometries the loop appends are the geometries passed to the `AddLink` calls of the links `collect` lists -/
+theorem routeG_eq (g : Network α) (net : Net α) (hR : Rep geoOf g net) :
+    ∀ (nodes : List Nat) (ls : List Nat) (d t : α), collect net nodes = .ok (ls, d, t) → routeG g nodes = ls.map geoOf := by
   intro nodes
   induction nodes with
   | nil => intro ls d t h; simp only [collect, Except.ok.injEq, Prod.mk.injEq] at h; simp [routeG, ← h.1]
@@ -407,15 +411,19 @@ theorem routeG_length (g : Network α) (net : Net α) (hR : Rep g net) :
           | some x =>
             cases x with
             | none => rw [hl] at hnb; simp at hnb
-            | some ge => simp [routeG, hl, this, ← h.1]
+            | some ge =>
+              rw [hl] at hnb
+              simp only at hnb
+              simp [routeG, hl, this, ← h.1, hnb.2.2.2.2.2]
 
-/-- when the model answers, the regenerated `ShortestRoute` returns the model's totals and distances and one geometry per link -/
-theorem tie_ShortestRoute_ok (C : Ctx α) (g : Network α) (net : Net α) (hR : Rep g net)
+/-- when the model answers, the regenerated `ShortestRoute` returns the model's totals and distances, and as route the
+geometries that were passed to the `AddLink` calls of the model's links, in order -/
+theorem tie_ShortestRoute_ok (C : Ctx α) (g : Network α) (net : Net α) (hR : Rep geoOf g net)
     (hperm : ∀ u, (C.mo.perm (mapGetD g.neighbors u [])).Perm (mapGetD g.neighbors u []))
     (hends : ∀ e ∈ net.edges, hasNode net e.a = true ∧ hasNode net e.b = true) (from_ to_ : Pt α) (r : Route α)
     (h : shortestRoute C.geo C.Q true (ordOf C g) net from_ to_ = .ok r) :
-    ∃ route, network_ShortestRoute C g from_ to_ = .ok (route, r.distance, r.time, r.startDistance, r.endDistance) ∧
-      route.length = r.links.length := by
+    network_ShortestRoute C g from_ to_ =
+      .ok (r.links.map geoOf, r.distance, r.time, r.startDistance, r.endDistance) := by
   rw [tie_ShortestRoute C g net hR hperm hends]
   unfold shortestRoute at h
   cases hs : C.geo.nearest net.nodes from_ with
@@ -443,10 +451,10 @@ theorem tie_ShortestRoute_ok (C : Ctx α) (g : Network α) (net : Net α) (hR : 
             rw [hc] at h
             simp only [Except.ok.injEq] at h
             subst h
-            exact ⟨routeG g nodes, rfl, routeG_length g net hR nodes ls d tm hc⟩
+            simp only [routeG_eq g net hR nodes ls d tm hc]
 
 /-- the regenerated `ShortestRoute` faults exactly when the model does -/
-theorem tie_ShortestRoute_fault (C : Ctx α) (g : Network α) (net : Net α) (hR : Rep g net)
+theorem tie_ShortestRoute_fault (C : Ctx α) (g : Network α) (net : Net α) (hR : Rep geoOf g net)
     (hperm : ∀ u, (C.mo.perm (mapGetD g.neighbors u [])).Perm (mapGetD g.neighbors u []))
     (hends : ∀ e ∈ net.edges, hasNode net e.a = true ∧ hasNode net e.b = true) (from_ to_ : Pt α) (f : Fault)
     (h : shortestRoute C.geo C.Q true (ordOf C g) net from_ to_ = .error f) :
@@ -475,13 +483,16 @@ theorem tie_ShortestRoute_fault (C : Ctx α) (g : Network α) (net : Net α) (hR
           | error f => exact ⟨_, rfl⟩
           | ok res => obtain ⟨ls, d, tm⟩ := res; rw [hc] at h; cases h
 
+/-- the geometry of the `i`-th link of a history -/
+def linkGeo (ls : List (Link α)) (i : Nat) : List (Pt α) := (ls[i]?.map (·.pts)).getD []
+
 /-- **The property for the code as regenerated from route.go**: the state built by the regenerated `NewNetwork` and any
 sequence of regenerated `AddLink` calls (node ids below 2^63-1), queried by the regenerated `ShortestRoute` run on gonum's
 binary heap — for every Go map order that permutes the entries, under the contracts of the geometric primitives, positive
-speeds, no parallel links, and connected nearest nodes `s`, `t`: no fault; the reported distance and time are the sums over
-a chain of stored links from `s` to `t`, one returned geometry per link; the start/end distances are those to `s`/`t`; and the
-minimised total is minimal over ALL chains of stored links from `s` to `t`.  (`tie_build` + `tie_ShortestRoute_ok` +
-`C19_built_gonum`.) -/
+speeds, no parallel links, and connected nearest nodes `s`, `t`: no fault; the returned route consists of the geometries
+PASSED TO `AddLink` for a chain `es` of stored links from `s` to `t`, in order; the reported distance and time are the sums
+over that chain; the start/end distances are those to `s`/`t`; and the minimised total is minimal over ALL chains of stored
+links from `s` to `t`.  (`tie_build` + `tie_ShortestRoute_ok` + `C19_built_gonum`.) -/
 theorem C19_regenerated (C : Ctx α) (o : Opt) (ls : List (Link α)) (net : Net α) (from_ to_ : Pt α) (s t : MNode α)
     (hQ : C.Q = heapQ) (hmo : ∀ m : Map Nat (Option (Edge α)), (C.mo.perm m).Perm m)
     (hnil : ∀ p, C.geo.nearest [] p = none) (hmax : 2 * ls.length ≤ Go.maxInt)
@@ -489,21 +500,23 @@ theorem C19_regenerated (C : Ctx α) (o : Opt) (ls : List (Link α)) (net : Net 
     (htri : ∀ p q r, C.geo.euclid p r ≤ C.geo.euclid p q + C.geo.euclid q r) (hnp : NoParallel net)
     (hs : C.geo.nearest net.nodes from_ = some s) (ht : C.geo.nearest net.nodes to_ = some t)
     (hconn : ∃ es0, (∀ e ∈ es0, e ∈ net.edges) ∧ EChain s.id es0 t.id) :
-    ∃ g0 g route es, network_NewNetwork C (optNum o) = .ok g0 ∧ genBuild C g0 ls = .ok g ∧
+    ∃ g0 g es, network_NewNetwork C (optNum o) = .ok g0 ∧ genBuild C g0 ls = .ok g ∧
       network_ShortestRoute C g from_ to_ =
-        .ok (route, esum (·.length) es, esum (·.time) es, C.geo.euclid from_ s.p, C.geo.euclid to_ t.p) ∧
-      route.length = es.length ∧ (∀ e ∈ es, e ∈ net.edges) ∧ EChain s.id es t.id ∧
+        .ok (es.map (fun e => linkGeo ls e.link), esum (·.length) es, esum (·.time) es,
+             C.geo.euclid from_ s.p, C.geo.euclid to_ t.p) ∧
+      (∀ e ∈ es, e ∈ net.edges) ∧ EChain s.id es t.id ∧
       ∀ es', (∀ e ∈ es', e ∈ net.edges) → EChain s.id es' t.id →
         esum (ecost net.opt) es ≤ esum (ecost net.opt) es' := by
-  obtain ⟨g0, g, e0, eb, hR⟩ := tie_build C hnil o ls hmax net hb
+  obtain ⟨g0, g, e0, eb, hR⟩ := tie_build (geoOf := linkGeo ls) C hnil o ls hmax
+    (fun j hj => by simp [linkGeo, hj]) net hb
   obtain ⟨hwf, _⟩ := build_wf C.geo hc o ls net hsp hb
   obtain ⟨r, es, hr, _, _, hsd, hed, hl, hmem, hch, hd, htm, hmin⟩ :=
     C19_built_gonum C.geo (ordOf C g) o ls net from_ to_ s t hb hsp hc htri (ordOf_mem C g) hnp hs ht hconn
   rw [← hQ] at hr
-  obtain ⟨route, hroute, hlen⟩ := tie_ShortestRoute_ok C g net hR (fun u => hmo _) hwf.ends from_ to_ r hr
-  refine ⟨g0, g, route, es, e0, eb, ?_, ?_, hmem, hch, hmin⟩
-  · rw [hroute, hd, htm, hsd, hed]
-  · rw [hlen, hl, List.length_map]
+  have hroute := tie_ShortestRoute_ok C g net hR (fun u => hmo _) hwf.ends from_ to_ r hr
+  refine ⟨g0, g, es, e0, eb, ?_, hmem, hch, hmin⟩
+  rw [hroute, hd, htm, hsd, hed, hl, List.map_map]
+  rfl
 
 /-- non-vacuity of the map-order hypothesis: visiting a map back to front is a permutation of its entries -/
 example : ∀ m : Map Nat (Option (Edge ℚ)), ((⟨fun m => m.reverse⟩ : MapOrder).perm m).Perm m := fun m => List.reverse_perm m
